@@ -235,17 +235,7 @@ def showRoute : RouteResult RouteId → String
   | .error .invalidArgument => "err:InvalidArgument"
 
 /-- all (id, method, template) of the spec table, templates `NewPattern` would reject left out -/
-def specEntries (ts : List TargetD) : List (RouteId × Bytes × Tmpl) :=
-  let mk : RouteId → Bytes → Option Tmpl → List (Route RouteId) := mkRouteA
-  -- reuse buildTable's order; recover the template from the description
-  let descs : List (RouteId × Bytes × Option Tmpl) :=
-    (enum ts).flatMap fun (ti, t) => (enum t.services).flatMap fun (si, s) => (enum s.methods).flatMap fun (mi, m) =>
-      if m.bindings.isEmpty then [(⟨ti, si, mi, none⟩, post, m.dflt)]
-      else (enum m.bindings).map fun (bi, b) => (⟨ti, si, mi, some bi⟩, b.httpMethod, b.pattern)
-  let _ := mk
-  descs.filterMap fun (i, m, t) => match t with
-    | some t => if deepCount t.segs ≤ 1 then some (i, m, t) else none
-    | none => none
+def specEntries (ts : List TargetD) : List (RouteId × Bytes × Tmpl) := buildTable mkEntry ts
 
 /-- executable `PathMatches` (C03_pathMatch: `pathMatch t segs = .ok b ↔ PathMatches t segs b` for well-formed `t`) -/
 def pathMatch (t : Tmpl) (segs : List Bytes) : MatchRes Captures :=
